@@ -11,10 +11,9 @@ C08's `step_unsuffixed`/`step_suffixed`) says that this value is `None`, a non-e
 of non-empty strings — never `{}`.  The survey built from these grouped rows therefore satisfies `wf`, and all
 statements of C07 hold for it: they are statements about the cells as typed.
 
-Scope (`_partial`, gap stated at the theorem): question rows of a flat form with the one-level text columns
-`label`/`hint`/`guidance_hint` (any number of languages, any column order, unsuffixed and/or suffixed) and
-choice rows with `label` columns.  Media and bind-message columns (two tokens after the column name:
-`media::image::fr`, `bind::jr:constraintMsg::fr`) are outside C08's `colCells` and not covered here.
+This file: the one-level text columns `label`/`hint`/`guidance_hint` and the flat form used for the
+effective-text statements.  The general statement (media and bind-message columns, nested sections, selects,
+several lists) is `C07Sheets.refs_exist_rows`.
 -/
 namespace Pyxv.C07Rows
 open Pyxv Pyxv.Headers Pyxv.C08 Pyxv.Itext
@@ -197,35 +196,6 @@ theorem processRows_flat {dk : Str} {hk : List (Str × List Str)} {qs : List Str
     rcases List.mem_cons.mp ho' with rfl | ho'
     · exact hf q hq
     · exact hfs o' ho' q hq
-
-/-- **C07 from the sheets (partial: text columns of a flat form).**  Question rows (`names` gives their `name`
-cells) and the rows of one choice list, as typed: cells are (header, non-empty text) in column order, headers
-resolved by the header key tables `hkS`/`hkC` of `dealias_and_group_headers`.  If every row meets C08's hypotheses
-for its text columns (`RowOk`), then `process_row` accepts all of them and, for the survey built from the grouped
-rows, every `jr:itext` reference and every `itextId` names a text present in every translation, and the whole
-oracle predicate `Itext.holds` is true.  No hypothesis about the built survey remains.
-Gap to the full statement: media and bind-message columns (two tokens after the column name), nested sections,
-selects wired to the list, several lists. -/
-theorem refs_exist_rows_partial (dl : Str) (hkS hkC : List (Str × List Str))
-    (names : List Str) (srows : List (List (Str × Str))) (list : Str) (crows : List (List (Str × Str)))
-    (hs : ∀ r ∈ srows, RowOk dl hkS textCols r) (hc : ∀ r ∈ crows, RowOk dl hkC ["label".toList] r) :
-    ∃ souts couts, processRows dl hkS srows = .ok souts ∧ processRows dl hkC crows = .ok couts ∧
-      let x := sheetSurvey dl (names.zip souts) [(list, couts)]
-      (∀ r ∈ C07.refs x, (out x).translations ≠ [] ∧ ∀ t ∈ (out x).translations, r ∈ t.ids) ∧
-      holds (obsOf x.defaultLanguage (out x)) = true := by
-  obtain ⟨souts, hso, _, hsf⟩ := processRows_flat srows hs
-  obtain ⟨couts, hco, _, hcf⟩ := processRows_flat crows hc
-  refine ⟨souts, couts, hso, hco, ?_⟩
-  have hw := wf_sheetSurvey dl (names.zip souts) [(list, couts)]
-    (by
-      intro q hq c hc'
-      exact hsf q.2 (List.of_mem_zip hq).2 c hc')
-    (by
-      intro l hl o ho
-      simp only [List.mem_singleton] at hl
-      subst hl
-      exact hcf o ho _ (by simp))
-  exact ⟨C07.refs_exist _ hw, C07.holds_out _ hw⟩
 
 /-! ### effective text: what a language shows for a translated label is the cell typed for it -/
 
@@ -533,7 +503,7 @@ def srowsEx : List (List (Str × Str)) :=
 def crowsEx : List (List (Str × Str)) :=
   [[("label::fr".toList, "Oui".toList), ("label::en".toList, "Yes".toList)], [("label::en".toList, "No".toList)]]
 
-/-- the hypotheses of `refs_exist_rows_partial` hold for these sheets, and the conclusion is not vacuous:
+/-- these sheets meet `RowOk` (flat special case of `C07Sheets.refs_exist_rows`), and the conclusion is not vacuous:
 5 references (2 labels and 1 hint in the body, 2 itextIds) over 3 translations (fr, default, en) -/
 example :
     (srowsEx.all (rowOkB "default".toList hkSEx textCols) && crowsEx.all (rowOkB "default".toList hkSEx ["label".toList])) = true ∧
